@@ -18,10 +18,12 @@ open Apko
 
 /-! ### the input predicates (all decidable) -/
 
-/-- image, layers and source get pairwise distinct identifiers, and the source element (url, commit as
-version and SHA1) does not read like an entry of the installed database -/
+/-- header elements (image, layers, source) with the same identifier are the same element — a layer digest
+listed twice is allowed, two digests sanitising to one identifier are not — and the source element (url,
+commit as version and SHA1) does not read like an entry of the installed database -/
 def headerOk (o : Opts) : Bool :=
-  decide (header o).ids.Nodup && o.apks.all fun a => (srcPkgs o).all fun p => !matchesApk a p
+  ((header o).packages.all fun p => (header o).packages.all fun q => p.id ≠ q.id || p = q) &&
+  o.apks.all fun a => (srcPkgs o).all fun p => !matchesApk a p
 
 /-- nothing else claims the names or identifiers of the image and layer elements: no apk is named like one
 of their digests or sanitises to one of their identifiers, no embedded element carries one -/
@@ -36,8 +38,20 @@ def benign (o : Opts) (fs : SbomDir) : Bool :=
   headerOk o && !idCollision o && !embeddedTarget o fs && !multiTarget o fs
 
 theorem headerOk_iff {o : Opts} : headerOk o = true ↔
-    (header o).ids.Nodup ∧ ∀ a ∈ o.apks, ∀ p ∈ srcPkgs o, matchesApk a p = false := by
-  simp [headerOk, List.all_eq_true]
+    HdrInj o ∧ ∀ a ∈ o.apks, ∀ p ∈ srcPkgs o, matchesApk a p = false := by
+  simp only [headerOk, HdrInj, Bool.and_eq_true, List.all_eq_true, Bool.or_eq_true, decide_eq_true_eq,
+    Bool.not_eq_true']
+  constructor
+  · rintro ⟨h1, h2⟩
+    refine ⟨fun p hp q hq e => ?_, h2⟩
+    rcases h1 p hp q hq with h | h
+    · exact absurd e h
+    · exact h
+  · rintro ⟨h1, h2⟩
+    refine ⟨fun p hp q hq => ?_, h2⟩
+    by_cases e : p.id = q.id
+    · exact Or.inr (h1 p hp q hq e)
+    · exact Or.inl e
 
 theorem unclaimed_iff {o : Opts} {fs : SbomDir} : unclaimed o fs = true ↔
     (∀ a ∈ o.apks, a.name ∉ protNames o) ∧ (∀ a ∈ o.apks, apkId (nonceOf o.imageDigest) a ∉ protIds2 o) ∧
@@ -187,13 +201,13 @@ theorem generate_benign {o : Opts} {fs : SbomDir} {ord : List Id → List Id} {d
             rw [header_ids]
             exact List.mem_append_left _ hpi
         first
-          | exact keep_imageOk (protIds2_nodup hnd) hk
-          | exact keep_layersOk (protIds2_nodup hnd) hk
+          | exact keep_imageOk hnd hk
+          | exact keep_layersOk hnd hk
 
 /-- with embedded SBOMs of arbitrary shape and every iteration order, the image and layer clauses hold
 provided nothing else claims their names or identifiers -/
 theorem generate_unclaimed {o : Opts} {fs : SbomDir} {ord : List Id → List Id} {d : Doc}
-    (hh : (header o).ids.Nodup) (hu : unclaimed o fs = true) (h : generate o fs ord = .ok d) :
+    (hh : HdrInj o) (hu : unclaimed o fs = true) (h : generate o fs ord = .ok d) :
     ImageOk o d ∧ LayersOk o d := by
   obtain ⟨hname, hapk, hemb⟩ := unclaimed_iff.mp hu
   unfold generate at h
@@ -204,7 +218,7 @@ theorem generate_unclaimed {o : Opts} {fs : SbomDir} {ord : List Id → List Id}
     · next doc ha =>
       cases h
       have hk := addApks_keep _ hname hemb hapk (header_keep hh) ha
-      exact ⟨keep_imageOk (protIds2_nodup hh) hk, keep_layersOk (protIds2_nodup hh) hk⟩
+      exact ⟨keep_imageOk hh hk, keep_layersOk hh hk⟩
 
 /-! ### the verdict -/
 
